@@ -9,6 +9,9 @@
 (*   "pos"  all regions x a 13 x 13 probe grid of half-integer points (ks and pm)   *)
 (*   "tv"   all time intervals on 0..6, all velocity intervals on -1..3, combos      *)
 (*   "mix"  64 goal states with several constraints x 64 probes; + second goal state*)
+(*   "movp" / "movo"  goals that are MOVED (translate_rotate by an integer translation *)
+(*          and a quarter turn) before the query: 8 position goals x 8 motions x the   *)
+(*          moved probe grid + probes at the old location; 4 angle goals x 4 motions   *)
 (* Gen = TRUE: one state per goal region; Emit prints the region with its probes.   *)
 EXTENDS Goal
 CONSTANTS Gen, Big
@@ -86,13 +89,37 @@ G2 == {GS(FullT, Rect(<<0, 0, 4, 4>>), NoC, NoC), GS(Iv(3, 3), NoC, Ang(9, 15), 
 (* quick tier: the big "ori" class gets one second goal state only (the one with an orientation constraint) *)
 G2For(c) == IF c = "ori" /\ ~Big THEN {GS(Iv(3, 3), NoC, Ang(9, 15), NoC)} ELSE G2
 
-Classes == {"ori", "pos", "tv", "mix"}
+(* ---- moved goals: the region is moved by a lattice rigid motion inside the library, then queried ---- *)
+MovesP == <<[t |-> <<0, 0>>, q |-> 0], [t |-> <<3, -2>>, q |-> 0], [t |-> <<0, 0>>, q |-> 1], [t |-> <<3, -2>>, q |-> 1],
+            [t |-> <<0, 0>>, q |-> 2], [t |-> <<-4, 6>>, q |-> 2], [t |-> <<0, 0>>, q |-> 3], [t |-> <<3, -2>>, q |-> 3]>>
+MovesO == <<[t |-> <<4, -2>>, q |-> 0], [t |-> <<4, -2>>, q |-> 1], [t |-> <<4, -2>>, q |-> 2], [t |-> <<4, -2>>, q |-> 3]>>
+MovThs == <<-4, -3, 0, 3, 4>>
+MovPBase == [i \in 1..GridN * GridN |-> KS(3, PosPoint(i), MovThs[(i % 5) + 1], 0, 1, 0)]       \* the probe grid, varying headings
+MovPOld  == [i \in 1..25 |-> KS(3, <<3 * ((i - 1) % 5) - 2, 3 * ((i - 1) \div 5) - 2>>, 0, 0, 1, 0)]  \* stay where the goal WAS
+MovPGoals == {GS(FullT, p, NoC, NoC) : p \in {Rect(<<0, 0, 4, 4>>), Rect(<<1, 1, 6, 3>>), Disc(<<4, 4>>, 4),
+                                               Poly(<<<<0, 0>>, <<8, 0>>, <<8, 4>>, <<4, 4>>, <<4, 8>>, <<0, 8>>>>),
+                                               Group(<<<<0, 0, 4, 4>>, <<4, 2, 8, 6>>>>),
+                                               Lanelets(<<<<0, 0, 8, 2>>, <<0, 2, 8, 4>>>>)}}
+             \cup {GS(FullT, Rect(<<0, 0, 6, 4>>), Ang(-3, 3), NoC), GS(Iv(2, 4), Rect(<<1, 1, 6, 3>>), Ang(9, 15), Iv(1, 2))}
+MovOGoals == {GS(FullT, NoC, o, NoC) : o \in {Ang(-3, 3), Ang(9, 15), Ang(-20, -2), Ang(20, 30)}}
+MovClasses == {"movp", "movo"}
+Moves(c)   == IF c = "movo" THEN MovesO ELSE MovesP
+MovBase(c) == IF c = "movo" THEN OriProbes ELSE MovPBase
+MovedProbes(c, m) == [i \in DOMAIN MovBase(c) |-> MoveState(MovBase(c)[i], m)] \o (IF c = "movp" THEN MovPOld ELSE <<>>)
+MovTrajs(c, m) == IF c # "movp" THEN <<>> ELSE
+                  [j \in 1..6 |-> LET k == <<0, 30, 60, 84, 100, 140>>[j] IN
+                                   [i \in 1..3 |-> WithT(MoveState(MovPBase[k + 1 + 14 * (i - 1)], m), i)]]
+
+Classes == {"ori", "pos", "tv", "mix"} \cup MovClasses
 Goals1(c) == CASE c = "ori" -> {GS(FullT, NoC, o, NoC) : o \in OriAll}
                [] c = "pos" -> {GS(FullT, p, NoC, NoC) : p \in Regions}
                [] c = "tv"  -> {GS(t, NoC, NoC, NoC) : t \in TimeAll} \cup {GS(FullT, NoC, NoC, v) : v \in VelAll}
                                \cup {GS(t, NoC, NoC, v) : t \in TimeSome, v \in VelSome}
                [] c = "mix" -> MixGS
+               [] c = "movp" -> MovPGoals
+               [] c = "movo" -> MovOGoals
 Probes(c) == CASE c = "ori" -> OriProbes [] c = "pos" -> PosProbes [] c = "tv" -> TVProbes [] c = "mix" -> MixProbes
+               [] c = "movp" -> MovPBase [] c = "movo" -> OriProbes
 
 VARIABLES cls, goal, s
 vars == <<cls, goal, s>>
@@ -122,13 +149,27 @@ LawTraj         == (cls = "mix" /\ s = MixProbes[1]) =>
                         /\ (v = "T" <=> \E i \in 0..Len(tr) - 1 : Reached(goal, tr[i + 1]) = "T")
                         /\ (v = "F" <=> \A i \in 0..Len(tr) - 1 : ~IndexOk(goal, tr, i))
                         /\ (Len(tr) > 1 => Leq3(GoalReachedV(goal, SubSeq(tr, 1, Len(tr) - 1)), v))      \* longer trajectory: never worse
+(* rigid motions preserve membership; checked with every motion on the position, mixed and moved classes *)
+LawMoved        == (cls \in {"pos"} \cup MovClasses \/ (cls = "mix" /\ (Big \/ Len(goal) = 1))) =>
+                     \A k \in DOMAIN Moves(cls) : AdmMove(Moves(cls)[k]) /\ LawRigid(goal, s, Moves(cls)[k])
+LawMovedOri     == (cls = "ori" /\ Len(goal) = 1 /\ (Big \/ goal[1].ori.a % 8 = 0)) =>       \* quick: every 8th interval start
+                     \A k \in DOMAIN MovesO : LawRigid(goal, s, MovesO[k])
 (* action properties *)
 Monotone  == [][goal' # goal => Leq3(Reached(goal, s), Reached(goal', s))]_vars      \* adding a goal state never turns T into F
 TurnInv   == [][s' # s => Compat(Reached(goal, s), Reached(goal', s'))]_vars         \* a full turn changes nothing (up to the band)
 
 (* ---- generation ---- *)
 (* `bands` = number of probes whose expected verdict is EITHER: evidence only (how much of the space the bands take) *)
-Emit == PrintT(<<"CASE", ToJson([cls |-> cls, goal |-> goal, states |-> Probes(cls),
+IsMov == cls \in MovClasses
+MovBands == Cardinality(UNION {LET mp == MovedProbes(cls, Moves(cls)[k]) IN
+                                 {<<k, i>> : i \in {j \in DOMAIN mp : MovedReached(goal, Moves(cls)[k], mp[j]) = "EITHER"}}
+                               : k \in DOMAIN Moves(cls)})
+Emit == PrintT(<<"CASE", ToJson([cls |-> cls, goal |-> goal,
+                                 states |-> IF IsMov THEN <<Probes(cls)[1]>> ELSE Probes(cls),
                                  trajs |-> IF cls = "mix" THEN MixTrajs ELSE <<>>,
-                                 bands |-> Cardinality({i \in DOMAIN Probes(cls) : Reached(goal, Probes(cls)[i]) = "EITHER"})])>>)
+                                 moves   |-> IF IsMov THEN Moves(cls) ELSE <<>>,
+                                 mstates |-> IF IsMov THEN [k \in DOMAIN Moves(cls) |-> MovedProbes(cls, Moves(cls)[k])] ELSE <<>>,
+                                 mtrajs  |-> IF IsMov THEN [k \in DOMAIN Moves(cls) |-> MovTrajs(cls, Moves(cls)[k])] ELSE <<>>,
+                                 bands |-> IF IsMov THEN MovBands
+                                           ELSE Cardinality({i \in DOMAIN Probes(cls) : Reached(goal, Probes(cls)[i]) = "EITHER"})])>>)
 =================================================================================
